@@ -234,6 +234,7 @@ Proof.
     + rewrite CR1 by assumption. destruct (Nat.ltb_spec (halfR + (i - half)) halfR); [lia|].
       f_equal. lia.
     + apply (coef_ge D). lia.
+  - exact OK.
 Qed.
 
 (* the recursive dynamic choice: every threshold >= 1, every fuel (recursion depth), every requested length *)
